@@ -245,6 +245,8 @@ def h_comprehension(ctx):
         I.call_function(fi, [node_gens, index, Obj(ctx.fresh('element', ObjS), 'ast'), result], {}, self_obj=me)
     except PyRaise as e:
         ctx.check('C04.comprehension.raises_only_expression_error', I.is_subclass(e.cls, 'ExpressionError') or e.cls == 'TypeError', 'property')
+        # the expression may go on after the failure (exists() turns it into False): the loop variable is gone then, what it hid is back
+        ctx.check('C04.comprehension.scope_restored_when_the_loop_fails', same_map(me.fields['_scope'], dom0, arr0, kk), 'property')
         ctx.cover('comprehension.raises')
         return
     ctx.check('C04.comprehension.scope_restored_on_return', same_map(me.fields['_scope'], dom0, arr0, kk), 'property')
